@@ -655,3 +655,51 @@ def bit_count(m, st, inst, args, t):
 def install(m):
     m.prims.update(PRIMS)
     lanes.install(m)
+
+
+# ---- scanner summaries (justified by the C12 contract proved separately on the same tree) ------
+TCHAR = mask_of(lambda b: (48 <= b <= 57) or (65 <= b <= 90) or (97 <= b <= 122) or chr(b) in "!#$%&'*+-.^_`|~")
+URI = mask_of(lambda b: 0x21 <= b <= 0x7E or b >= 0x80)
+HVAL = mask_of(lambda b: b == 9 or 0x20 <= b <= 0x7E or b >= 0x80)
+SCANNER_CLASSES = {"match_uri_vectored": URI, "match_header_value_vectored": HVAL, "match_header_name_vectored": TCHAR}
+
+
+def scanner_summary(cls_mask):
+    from .absm import REPEAT
+
+    def f(m, st, inst, args, t):
+        p = args[0]
+        if p[0] != "ptr":
+            raise Unanalysable("scanner called with %s" % p[0])
+        ci = m.bytes_field_index("cursor")
+        cloc = m.loc_push(p[1], ci)
+        cur = m.read_loc(st, cloc, None)
+        if cur[0] != "ptr" or cur[1][0] != "B" or m.buf_rel(st, cur[1]) != 0:
+            raise Unanalysable("scanner summary: cursor is not the tape position")
+        if not m.need_tape(st, 1):
+            return UNIT
+        c = st.tape[0]
+        mask = st.cells[c]
+        inside, outside = mask & cls_mask, mask & ~cls_mask & FULL
+        if inside and outside:
+            raise Fork([("in-class", lambda s: s.refine(c, cls_mask)), ("out-of-class", lambda s: s.refine(c, ~cls_mask & FULL))], "scanner class")
+        if not inside:
+            return UNIT
+        new = ("ptr", m.elem_loc(st, cur[1], mk_int(1, 64)))
+        if m.hooks is not None:
+            m.hooks.on_bytes_field_store(m, st, "cursor", cloc, new)
+        m.write_loc(st, cloc, new)
+        return REPEAT
+
+    return f
+
+
+def install_scanner_summaries(m, verified):
+    """verified: iterable of instance npaths whose contract was proved (C12)."""
+    n = 0
+    for np_ in verified:
+        name = np_.split("::")[-1]
+        if name in SCANNER_CLASSES:
+            m.prims[np_] = scanner_summary(SCANNER_CLASSES[name])
+            n += 1
+    return n
